@@ -6,8 +6,11 @@ which the structural fingerprint of the syntax tree, of the type information of 
 and of the registered checker metadata is logged with every Walked event (fpSame) and the result of every
 checker B after other checkers A is compared with B alone; TraceLifecycle.tla requires fpSame and got = fresh.
 """
+import os
+
 import vlib
 from props import lifecycle_common as lc
+from props import gen_common
 
 
 def run(ctx):
@@ -19,9 +22,18 @@ def run(ctx):
     design["noCopy_orderDependence"] = {"refuted": r.violated, "distinct": r.distinct}
 
     runs = []
-    args = ["-corpus", "examples", "-mode", "order", "-others", "0" if thorough else "10", "-oblig", "c03,c05"]
+    gdir = gen_common.generate(ctx, "c05")
+    corp = "examples,dir:" + gdir
+    args = ["-corpus", corp, "-mode", "order", "-others", "0" if thorough else "10", "-oblig", "c03,c05"]
     res, trace = lc.run_harness(ctx, "c05_order", args)
     runs.append((args, res, trace))
+    # parameter corners (a checker may write only on a non-default path); ruleguard with a real rule file
+    rules = os.path.join(vlib.REPO, "checkers", "testdata", "_integration", "ruleguard", "rules.go")
+    for corner in ("min", "max"):
+        a = ["-corpus", corp, "-mode", "order", "-others", "0" if thorough else "3", "-oblig", "c03,c05",
+             "-params", "%s,ruleguard.rules=%s" % (corner, rules)]
+        res_c, trace_c = lc.run_harness(ctx, "c05_" + corner, a, cwd=vlib.REPO)
+        runs.append((a, res_c, trace_c))
     if thorough:
         args2 = ["-corpus", "std:40,repo", "-mode", "cli", "-oblig", "c05", "-frac", "1"]
         res2, trace2 = lc.run_harness(ctx, "c05_std", args2, timeout=6000)
